@@ -120,7 +120,7 @@ Lemma create_table_sql_shape : forall cls t calls, create_frag cls calls = true 
   ++ (if existsb is_call_ine calls then "IF NOT EXISTS " else "") ++ render_table (create_quote cls) t ++ rest.
 Proof.
   intros cls t calls Hf Hl Hx rest. unfold create_table_sql, spec_kind. cbn [state_of s_local s_temporary s_unlogged s_ine].
-  destruct cls; cbn [create_frag] in Hf;
+  destruct cls; unfold create_frag in Hf; simpl in Hf;
     try (rewrite (Hl eq_refl);
          destruct (existsb is_call_temporary calls), (existsb is_call_unlogged calls), (existsb is_call_ine calls);
          try discriminate; cbn [kind_text]; now rewrite !sapp_assoc).
@@ -183,6 +183,19 @@ Proof.
     change ("" ++ x) with x. rewrite Hitems, parse_options_ok. reflexivity.
 Qed.
 
+(* since 1e06637 the class that does not print UNLOGGED rejects unlogged(): no fragment is left *)
+Lemma accepted_create_frag : forall cls t calls st, build cls t calls = Ok st -> create_frag cls calls = true.
+Proof.
+  intros cls t calls st H. unfold create_frag. destruct (rejects_unlogged cls) eqn:E; [|reflexivity].
+  unfold build in H. simpl in H. simpl. now rewrite (accepted_no_unlogged _ _ _ _ E H).
+Qed.
+
+Theorem create_roundtrip_all : forall cls t calls st,
+  build cls t calls = Ok st ->
+  spec_ok (create_quote cls) t calls = true ->
+  parse_create (create_quote cls) (render_create cls st) = Some (ast_of t calls).
+Proof. intros. eapply create_roundtrip; eauto. eapply accepted_create_frag; eauto. Qed.
+
 (* ---------- programs the builder accepts: a sufficient, order-insensitive description ---------- *)
 (* no second create_table; at most one primary_key / foreign_key / as_select; no Vertica flag calls
    (those depend on the position of temporary()); AS SELECT only without columns() calls *)
@@ -204,13 +217,16 @@ Lemma simple_run : forall cls calls st, is_some (s_table st) = true ->
   (count_calls is_call_fk calls + (if fk_set st then 1 else 0) <= 1)%nat ->
   (existsb is_call_sel calls = true -> existsb is_call_cols calls = false /\ nonempty (s_columns st) = false) ->
   (existsb is_call_cols calls = true -> is_some (s_as_select st) = false) ->
+  (rejects_unlogged cls && existsb is_call_unlogged calls)%bool = false ->
   exists st', run cls st calls = Ok st'.
 Proof.
-  induction calls as [|c r IH]; intros st Ht Hc Hl Hp Hpk Hfk Hsel Hcols; [simpl; eauto|].
+  induction calls as [|c r IH]; intros st Ht Hc Hl Hp Hpk Hfk Hsel Hcols Hu; [simpl; eauto|].
   destruct st as [tb tmp unl sel cols pers sv pk uqs ine fk loc prs].
   unfold count_calls in *.
-  destruct c; simpl in Hc, Hl, Hp, Hpk, Hfk, Hsel, Hcols; try discriminate;
+  destruct c; simpl in Hc, Hl, Hp, Hpk, Hfk, Hsel, Hcols, Hu; try discriminate;
     try (simpl; apply IH; simpl; auto; fail).
+  - (* unlogged *)
+    rewrite Bool.andb_true_r in Hu. simpl. rewrite Hu. apply IH; simpl; auto. now rewrite Hu.
   - (* columns *)
     simpl. rewrite (Hcols eq_refl). apply IH; simpl; auto.
     intros E. destruct (Hsel E). discriminate.
@@ -225,9 +241,10 @@ Proof.
     intros E. congruence.
 Qed.
 
-Theorem simple_program_accepted : forall cls t calls, simple_program calls = true -> exists st, build cls t calls = Ok st.
+Theorem simple_program_accepted : forall cls t calls, simple_program calls = true -> create_frag cls calls = true ->
+  exists st, build cls t calls = Ok st.
 Proof.
-  intros cls t calls H. unfold simple_program in H.
+  intros cls t calls H Hu. unfold create_frag in Hu. apply Bool.negb_true_iff in Hu. unfold simple_program in H.
   apply Bool.andb_true_iff in H as [H H6]. apply Bool.andb_true_iff in H as [H H5].
   apply Bool.andb_true_iff in H as [H H4]. apply Bool.andb_true_iff in H as [H H3].
   apply Bool.andb_true_iff in H as [H1 H2].
